@@ -75,9 +75,14 @@ class TypeRegistry:
         def decorator(f):
             if not self.validator(f):
                 raise TypeError(f'Invalid register target: {f}, must pass <{self.validator}> validate')
-            self._registry.insert(0, (detector, f, priority))
-            if priority:
-                self._registry.sort(key=lambda v: -v[2])
+            # keep the registry ordered by priority (stable: the latest registration stays in front
+            # of earlier ones of the same priority) and drop the cached resolutions, so that a
+            # registration made after a type has been resolved takes effect.
+            # both are replaced (not mutated in place) so that a concurrent resolve() never
+            # observes a partially sorted list or fills a cache that is being invalidated
+            self._registry = sorted(
+                [(detector, f, priority)] + self._registry, key=lambda v: -v[2])
+            self._cache = {}
             return f
 
         # before runtime, type will be compiled and applied
@@ -91,13 +96,14 @@ class TypeRegistry:
         if self.shortcut and hasattr(t, self.shortcut) and self.validator(getattr(t, self.shortcut)):
             # this type already got a callable transformer, do not resolve then
             return getattr(t, self.shortcut)
-        if self.cache and t in self._cache:
-            return self._cache[t]
+        cache = self._cache
+        if self.cache and t in cache:
+            return cache[t]
         for detector, trans, priority in self._registry:
             try:
                 if detector(t):
                     if self.cache:
-                        self._cache[t] = trans
+                        cache[t] = trans
                     return trans
             except (TypeError, ValueError):
                 continue
